@@ -358,6 +358,65 @@ theorem System_window (s : SysState) (r : Request) (img : Bytes) (h : systemDump
     rw [h2]
     simp [TMem.bytes]
 
+/-- **Skipping unreferenced stacks (C20, end to end).** With skipping enabled: for a thread other than the crash
+    context's whose stack pointer lies in a mapping of readable pages, the image records its stack iff the inclusion
+    rule holds on the target's bytes of the (possibly shortened) region with the stack pointer's offset in that
+    region — instruction pointer inside the principal mapping, or an aligned word at or above the stack pointer that
+    points into it (`C20_include_iff`). Whether or not the stack is kept, the thread's record and context are there. -/
+theorem System_skip (s : SysState) (r : Request) (img : Bytes) (h : systemDump s r = .ok img)
+    (k : Nat) (t : TInfo) (hk : s.threads[k]? = some t)
+    (hother : r.crash = none ∨ t.tid ≠ r.blamed)
+    (m : Mapping) (hp : 0 < s.page) (hw : HullOk s.ms) (hrd : s.mem.allReadable m.start m.size = true)
+    (hf : findMapping s.ms (t.sp - t.sp % s.page) = some m) (hs : mayBeStack (some m) = true) (hsp : t.sp < m.start + m.size)
+    (hns : r.cfg.sanitize = false) :
+    ∃ d dt v l, gatherDump s r = .ok d ∧ d.threads[k]? = some dt ∧ dt.tid = t.tid ∧ dt.ctx = t.ctx ∧
+      getStackInfo s.ms s.page t.sp = .ok (v, l) ∧
+      (dt.stack = none ↔
+        includeStack r.cfg.skip r.cfg.principal t.ip
+          (s.mem.bytes (capRegion v l t.sp (maxStackLen r.cfg.limit (extraLimit r.cfg.limit s.threads.length
+              (32 + 12 * s.numWriters + 4 + 48 * s.threads.length)) k false)).1
+            (capRegion v l t.sp (maxStackLen r.cfg.limit (extraLimit r.cfg.limit s.threads.length
+              (32 + 12 * s.numWriters + 4 + 48 * s.threads.length)) k false)).2)
+          (t.sp - (capRegion v l t.sp (maxStackLen r.cfg.limit (extraLimit r.cfg.limit s.threads.length
+              (32 + 12 * s.numWriters + 4 + 48 * s.threads.length)) k false)).1) = false) := by
+  obtain ⟨d, hd, hi⟩ := systemDump_ok s r img h
+  obtain ⟨hth, _⟩ := gatherDump_ok s r d hd
+  obtain ⟨_, _, hget⟩ := E2E_threads _ _ _ _ _ _ _ hth
+  obtain ⟨dt, hdk, hgt⟩ := hget k t hk
+  have hoth : (r.crash.map (·.2)) = none ∨ t.tid ≠ r.blamed := by
+    rcases hother with h | h
+    · exact Or.inl (by rw [h]; rfl)
+    · exact Or.inr h
+  obtain ⟨htid', _, _, hctx', _, hgs⟩ := E2E_other_thread _ _ _ _ _ _ _ t dt hoth hgt
+  obtain ⟨v, l, hgi, hv1, hv2, hv3, hv4⟩ := C06_mapped s.ms s.page t.sp m hp hw hf hs hsp
+  refine ⟨d, dt, v, l, hd, hdk, htid', hctx', hgi, ?_⟩
+  have hms := (findMapping_some hf).2.1
+  have hwithin := capRegion_within v l t.sp (maxStackLen r.cfg.limit (extraLimit r.cfg.limit s.threads.length
+      (32 + 12 * s.numWriters + 4 + 48 * s.threads.length)) k false) m.start (m.start + m.size)
+      (by rcases hv4 with hv | hv <;> omega) (by omega) ⟨hv1, hv2⟩
+      (fun c hc => by
+        obtain ⟨h2048, _⟩ := C06_only_extra_threads_shortened _ _ _ _ _ _ hc
+        omega)
+  -- the region is not empty, so the copy is the target's bytes
+  have hpos : 0 < (capRegion v l t.sp (maxStackLen r.cfg.limit (extraLimit r.cfg.limit s.threads.length
+      (32 + 12 * s.numWriters + 4 + 48 * s.threads.length)) k false)).2 := by
+    cases hcap : maxStackLen r.cfg.limit (extraLimit r.cfg.limit s.threads.length
+      (32 + 12 * s.numWriters + 4 + 48 * s.threads.length)) k false with
+    | none => simp only [capRegion]; omega
+    | some c =>
+      obtain ⟨h2048, _⟩ := C06_only_extra_threads_shortened _ _ _ _ _ _ hcap
+      obtain ⟨_, _, _, _, c5, c6, _⟩ := C06_cap v l t.sp c (by omega) ⟨hv1, hv2⟩
+      omega
+  have hcopy := copy_readable s.mem _ _ hpos (allReadable_sub s.mem m.start m.size _ _ hrd hwithin.1 hwithin.2)
+  have hskip := (E2E_skip_iff ⟨s.ms, s.page, copyFromProcess s.mem⟩ r.cfg k s.threads.length
+    (32 + 12 * s.numWriters + 4 + 48 * s.threads.length) false t.sp t.ip v l _ hgi hns hcopy).1
+  rw [hgs] at hskip
+  constructor
+  · intro hn; exact hskip.mp (by rw [hn])
+  · intro hf'
+    have := hskip.mpr hf'
+    injection this with this
+
 /-- **Thread names (C15, end to end).** The `j`-th named thread the dumper read at enumeration has record `j` of the
     thread-names stream: its id, and the location of its own name string, which follows the records. -/
 theorem System_name (s : SysState) (r : Request) (img : Bytes) (h : systemDump s r = .ok img)
